@@ -15,6 +15,8 @@
 static void fz_viol(const char *key, const char *what);
 #define TP_VIOL(mon, what)   fz_viol((mon), (what))
 #include "tlsmon.h"
+#include <sys/time.h>
+#include <signal.h>
 
 static void
 fz_viol(const char *key, const char *what)
@@ -30,7 +32,7 @@ extern unsigned long long br_verif_t0_steps;
 
 static const char *tnames[] = {
 	"client_pre", "server_pre", "client_post", "server_post", "x509_minimal", "x509_decoder",
-	"skey", "pkey", "pem", "ecdsa", "rsa_pub", "ec_pub"
+	"skey", "pkey", "pem", "ecdsa", "rsa_pub", "ec_pub", "lru"
 };
 
 static int target = -1;
@@ -666,6 +668,72 @@ t_rsa_pub(const uint8_t *data, size_t len)
 	n_ok_results ++;
 }
 
+/*
+ * Session cache: what a peer controls is which session IDs a server looks up and how many sessions it makes the
+ * server store. Input: [capacity selector][seed] then operations of two bytes: [kind][id index]: store / look up /
+ * look up with a foreign or altered ID. The work per operation is bounded by the store (a cycle in the index tree
+ * or the recency list shows as a hang: libFuzzer's per-input timeout), offsets stay inside the store (exact-size
+ * heap block), and a look-up never returns a session that was not stored under that ID.
+ */
+static void
+lru_cpu_alarm(int sig)
+{
+	(void)sig;
+	fz_viol("lru:operation-does-not-terminate", "one save/load on a store of at most 1.3 kB used more than 5 s of CPU time");
+}
+
+static void
+t_lru(const uint8_t *data, size_t len)
+{
+	/* CPU time, not wall time: one operation visits at most the entries of the store */
+	struct itimerval arm = { { 0, 0 }, { 5, 0 } }, off = { { 0, 0 }, { 0, 0 } };
+	static uint64_t tags[64];            /* tags[i]: set of master-secret tags ever stored under ID i */
+	static br_ssl_server_context sc;
+	br_ssl_session_cache_lru cc;
+	br_ssl_session_parameters pp;
+	unsigned char *store, seed[32];
+	size_t store_len, o;
+	if (len < 2) return;
+	store_len = 100 * (size_t)(1 + data[0] % 12) + (size_t)(data[0] / 12) * 7;
+	store = malloc(store_len);
+	memset(seed, data[1], sizeof seed);
+	vf_raw_zero(&sc, sizeof sc);
+	br_hmac_drbg_init(&sc.eng.rng, &br_sha256_vtable, seed, sizeof seed);
+	br_ssl_session_cache_lru_init(&cc, store, store_len);
+	memset(tags, 0, sizeof tags);
+	signal(SIGVTALRM, lru_cpu_alarm);
+	for (o = 2; o + 2 <= len; o += 2) {
+		unsigned kind = data[o] & 3, id = data[o + 1] & 63;
+		memset(&pp, 0, sizeof pp);
+		memset(pp.session_id, (int)(0x40 + id), 32);
+		pp.session_id[0] = (unsigned char)id; pp.session_id[31] = (unsigned char)(data[o + 1] >> 6);
+		pp.session_id_len = 32;
+		if (kind == 0 || kind == 1) {
+			unsigned tag = 1 + (data[o] >> 2);     /* 1..64 */
+			pp.version = 0x0303; pp.cipher_suite = 0xC02F;
+			memset(pp.master_secret, (int)tag, 48);
+			if ((data[o + 1] >> 6) == 0) tags[id] |= (uint64_t)1 << (tag - 1);
+			setitimer(ITIMER_VIRTUAL, &arm, NULL);
+			cc.vtable->save(&cc.vtable, &sc, &pp);
+			setitimer(ITIMER_VIRTUAL, &off, NULL);
+		} else {
+			int r;
+			if (kind == 3) pp.session_id[7] ^= (unsigned char)(1 + (data[o] >> 2));   /* an ID nobody stored */
+			setitimer(ITIMER_VIRTUAL, &arm, NULL);
+			r = cc.vtable->load(&cc.vtable, &sc, &pp);
+			setitimer(ITIMER_VIRTUAL, &off, NULL);
+			if (r) {
+				unsigned t = pp.master_secret[0];
+				if (kind == 3) fz_viol("lru:foreign-id-found", "look-up of a session ID that was never stored returned a session");
+				else if ((data[o + 1] >> 6) == 0 && (t < 1 || t > 64 || !((tags[id] >> (t - 1)) & 1) || pp.master_secret[47] != t))
+					fz_viol("lru:wrong-session-returned", "look-up returned a master secret that was never stored under that ID");
+				n_ok_results ++;
+			} else n_err_results ++;
+		}
+	}
+	free(store);
+}
+
 static void
 t_ec_pub(const uint8_t *data, size_t len)
 {
@@ -1203,6 +1271,19 @@ gen_corpus(void)
 		}
 		break;
 	}
+	case 12: {
+		/* fill beyond the capacity (evictions), look everything up again, store again in another order */
+		int cap, sd;
+		for (cap = 0; cap < 12; cap += 2) for (sd = 0; sd < 3; sd ++) {
+			size_t q = 0; int i;
+			gbuf[q ++] = (unsigned char)cap; gbuf[q ++] = (unsigned char)(17 * sd + 1);
+			for (i = 0; i < 40; i ++) { gbuf[q ++] = (unsigned char)(4 * i); gbuf[q ++] = (unsigned char)((i * (7 + 2 * sd)) & 63); }
+			for (i = 0; i < 40; i ++) { gbuf[q ++] = 2; gbuf[q ++] = (unsigned char)((i * 5) & 63); }
+			for (i = 0; i < 40; i ++) { gbuf[q ++] = (unsigned char)(i & 1 ? 0 : 3); gbuf[q ++] = (unsigned char)((i * 11 + sd) & 63); }
+			emit(gbuf, q);
+		}
+		break;
+	}
 	}
 	fprintf(stderr, "FZ_CORPUS target=%s seeds=%d\n", tnames[target], corpus_n);
 }
@@ -1226,7 +1307,7 @@ LLVMFuzzerInitialize(int *argc, char ***argv)
 	int i;
 	(void)argc; (void)argv;
 	tp_prop = "C05";
-	for (i = 0; i < 12; i ++) if (t && strcmp(t, tnames[i]) == 0) target = i;
+	for (i = 0; i < 13; i ++) if (t && strcmp(t, tnames[i]) == 0) target = i;
 	if (target < 0) { fprintf(stderr, "FZ_TARGET not set or unknown\n"); exit(2); }
 	tp_fixtures();
 	tp_fifo_init(&sinkf);
@@ -1259,6 +1340,7 @@ LLVMFuzzerTestOneInput(const uint8_t *data, size_t len)
 	case 9: t_ecdsa(data, len); break;
 	case 10: t_rsa_pub(data, len); break;
 	case 11: t_ec_pub(data, len); break;
+	case 12: t_lru(data, len); break;
 	}
 	return 0;
 }
